@@ -442,6 +442,24 @@ export function genRewrite(rng, params) {
     const vals = [...tagsA.map((t) => ({ [key]: t, r: 1 })), { [key]: tagB, side: 2 }, { [key]: tagsA[0], side: 2 }, { [key]: "zz", r: 1 }, { r: 1 }, { [key]: tagsA[1], r: "x" }, 1, null, "circle"];
     return [A("rewrite"), A(String(counter++)), p1, [["entry.ts", tsOfProg(p1)]], vals.map(encVal), q1, [["entry.ts", tsOfProg(q1)]], [A("intro-alias")]];
   }
+  if (rng.chance(1, 12)) {
+    // renaming an alias in a program of SEVERAL modules: two modules whose paths read alike once mangled (`a/b.ts`, `a_b.ts`;
+    // `user-types.ts`, `user_types.ts`) each declare a type; the rewrite gives both types the same name (imports updated).
+    // The term is the same before and after (the model compiles the term); the files differ
+    const [f1, f2] = rng.pick([["a/b.ts", "a_b.ts"], ["user-types.ts", "user_types.ts"], ["x.y.ts", "x_y.ts"], ["t1.ts", "t2.ts"]]);
+    const leafA = rng.pick([A("string"), A("number")]), leafB = rng.pick([A("boolean"), A("null"), A("number")]);
+    const tA = [A("obj"), [["id", A("false"), leafA]], A("none")], tB = [A("obj"), [["id", A("false"), leafB], ["key", A("true"), A("number")]], A("none")];
+    const ex = [A("obj"), [["a", A("false"), [A("ref"), "Ida"]], ["b", A("false"), [A("ref"), "Idb"]]], A("none")];
+    const p1 = [p[0], [[A("alias"), "Ida", [], tA], [A("alias"), "Idb", [], tB]], [["EX", ex], ["EA", [A("ref"), "Ida"]], ["EB", [A("ref"), "Idb"]]]];
+    const spec = (f) => "./" + f.replace(/\.ts$/, "");
+    const entry = (n1, n2) => `import { ${n1} } from "${spec(f1)}";\nimport { ${n2} } from "${spec(f2)}";\nparse.buildParsers<{ EX: { a: Ida; b: Idb }, EA: Ida, EB: Idb }>();\n`;
+    const files1 = [[f1, `export type Ida = ${tsOf(tA)};\n`], [f2, `export type Idb = ${tsOf(tB)};\n`], ["entry.ts", entry("Ida", "Idb")]];
+    const nm = rng.pick(["Id", "Ida", "Idb"]);
+    const files2 = [[f1, `export type ${nm} = ${tsOf(tA)};\n`], [f2, `export type ${nm} = ${tsOf(tB)};\n`], ["entry.ts", entry(nm === "Ida" ? "Ida" : `${nm} as Ida`, nm === "Idb" ? "Idb" : `${nm} as Idb`)]];
+    const mA = (t) => (t.s === "string" ? "x" : t.s === "number" ? 1 : t.s === "boolean" ? true : null);
+    const vals = [{ a: { id: mA(leafA) }, b: { id: mA(leafB) } }, { a: { id: mA(leafB) }, b: { id: mA(leafA) } }, { id: mA(leafA) }, { id: mA(leafB) }, { id: mA(leafB), key: 1 }, { id: mA(leafA), key: "k" }, { a: { id: mA(leafA) }, b: { id: mA(leafA) } }, 1, null];
+    return [A("rewrite"), A(String(counter++)), p1, files1, vals.map(encVal), p1, files2, [A("rename-across-modules")]];
+  }
   if (rng.chance(1, 10)) {
     // a tuple that reaches the semantic engine BY NAME (Exclude, indexed access, a conditional type) against the same tuple
     // written in place: a named tuple without a rest element is as closed as an inline one
@@ -614,6 +632,10 @@ function oddProject(rng) {
         // a would-be discriminator one of whose tags is carried by every variant, written through a named type
         ["type Kind = \"a\" | \"b\";\ntype T = { kind: Kind; x: string } | { kind: \"b\"; y: number };", "enum Kind { A = \"a\", B = \"b\" }\ntype T = { kind: Kind; x: string } | { kind: Kind.B; y: number };",
         "type K2 = \"b\";\ntype T = { kind: \"a\" | K2; x: string } | { kind: K2; y: number } | { kind: \"c\"; z: null };", "type Kind = \"a\" | \"b\";\ntype T = { t: Kind; x: string } | { t: Kind; y: number };"],
+        // mapped types over literal keys whose body fails differently per key, or materialises helper definitions per key:
+        // the answer (which diagnostic, which helper numbers) must not depend on the order the keys are visited in
+        ["type T = { [K in \"a\" | \"b\"]: K extends \"a\" ? symbol : Missing };", "type T = { [K in \"x\" | \"y\" | \"z\"]: K extends \"x\" ? Missing1 : K extends \"y\" ? symbol : Missing2 };",
+         "type Tree = { a: Tree | null; b: Tree[] };\ntype T = { [K in \"a\" | \"b\"]: (Tree | { a: 1; b: 2 })[K] };", "type L = [string, ...L[]];\ntype T = { [K in \"p\" | \"q\" | \"r\"]: Exclude<L | K, K> };"],
         ["type T = 1e999 | 2;", "type T = -1e999;", "type T = { k: 1e400 };", "const inf = 1e999;\ntype T = typeof inf;", "type T = `${1e999}`;"]]));
       return [["entry.ts", shape + "\nparse.buildParsers<{ E0: T }>();\n"]];
     }
@@ -738,6 +760,21 @@ export function gen(rng, params, mode) {
     p[2] = [p[2][0]]; // one export
     // a type called K used twice (so that it is printed as a declaration), once as the value type of a record
     if (p[1].some((d) => d[1] === "K" && d[2].length === 0) && rng.chance(1, 2)) p[2] = [["E0", [A("obj"), [["a", A("false"), [A("ref"), "K"]], ["r", A("false"), rng.pick([[A("bi"), "Record", A("string"), [A("ref"), "K"]], [A("obj"), [], [A("string"), [A("ref"), "K"]]], [A("bi"), "Record", [A("tpl"), [A("lit"), "x_"], A("str")], [A("ref"), "K"]]])]], A("none")]]];
+    if (rng.chance(1, 10)) {
+      // a recursive named type BELOW one or two single-use named wrappers (printed in place by describe(), so the number of
+      // named types above the cycle differs between the two generations), or below an inline root
+      const self = [A("ref"), "Nd"];
+      const rec = rng.pick([[A("obj"), [["value", A("false"), A("number")], ["next", A("true"), self]], A("none")], [A("obj"), [["label", A("false"), A("string")], ["children", A("false"), [A("array"), self]]], A("none")],
+        [A("obj"), [["v", A("false"), A("boolean")], ["next", A("false"), [A("union"), self, A("null")]]], A("none")]]);
+      const decls = [[A("alias"), "Nd", [], rec]];
+      let root = [A("obj"), [["head", A("false"), self]], A("none")];
+      const depth = rng.below(3);
+      for (let i = 0; i < depth; i++) { decls.push([A("alias"), "W" + i, [], root]); root = [A("obj"), [[rng.pick(["chain", "w"]), A("false"), [A("ref"), "W" + i]]], A("none")]; }
+      if (rng.chance(1, 2)) { decls.push([A("alias"), "Root", [], root]); root = [A("ref"), "Root"]; }
+      const p2 = [A("prog"), decls, [["E0", root]]];
+      const vals = genValues(rng, p2, Number(params[0] || 12));
+      return [A("describe"), A(String(counter++)), p2, [["entry.ts", tsOfProg(p2)]], vals.map(encVal)];
+    }
     if (rng.chance(1, 12)) {
       // chains of registered string / number formats (`StringFormatExtends<…>`), two to four links, written through aliases or in
       // place: the printed text nests them in place (formats are outside the Lean compiler model: not tied, marker `bi "StringFormat"`)
